@@ -59,7 +59,8 @@ def ucTables : String :=
   let rp := allQueries.map fun q => s!"repl.{showQuery q}={showConstMethod (constReplacement q)}"
   let al := [s!"alias.pdf={showQuery aliasPdf}", s!"alias.cdf={showQuery aliasCdf}",
              s!"alias.ppf={showQuery aliasPpf}"]
-  " ".intercalate (fw ++ wr ++ rp ++ al)
+  let fl := [s!"reset={constResetOnNonConstant}", s!"wrapseed={wrapperSampleSeeded}"]
+  " ".intercalate (fw ++ wr ++ rp ++ al ++ fl)
 
 /-- split `n x*n w*n rest` -/
 def takeKde (n : Nat) (vals : List Float) : Option (List Float × List Float × List Float) :=
